@@ -73,6 +73,12 @@ CONSTANTS
     Admin,                 \* TRUE: the admin rewrite trigger is enabled
     A2Fixed, A2bFixed, A3Fixed, A11Fixed, A26Fixed,
     UpdExps,               \* Expried values of value-less deadline UPDATEs (update flag) by a holder; {} = no such requests
+    Leftover,              \* TRUE: the process may die while rewrite.aof.tmp is being written / before anything is removed; the restart's
+                           \* start-up compaction then STARTS on the leftover rewrite.aof.tmp(.dat)
+    TmpDatKept,            \* FALSE as the code is (both leftover files are appended to: duplicated records, frames stay aligned).  TRUE (a
+                           \* mutation): the leftover record file is removed, the leftover value file is kept and appended to
+    ValueFirst,            \* FALSE as the code is: the record of a request enters the write path before its value.  TRUE (a mutation):
+                           \* the value is written first - a stop between the two leaves a value of NO record in the value file
     EqLater, EqEarlier,    \* tolerance (in units of the record) of LockManager.CheckLockedEqual: 1 / 1 as the code is
     Turns                  \* {"any"} for exhaustive checking; class tokens to balance random walks (AofLogSim)
 
@@ -129,7 +135,20 @@ UnlockRec(k, ks, h, ucnt, urc, flag, t) ==
 NoRw == [present |-> FALSE, recs |-> <<>>, dat |-> TRUE]
 \* a removed file stays in `files` (indices stay valid) as [idx, recs <<>>, junk 0, gone TRUE]
 Gone(f) == "gone" \in DOMAIN f /\ f.gone
-Idle == [st |-> "idle", inputs |-> {}, rwin |-> FALSE, tmp |-> <<>>, refrw |-> NoRw, reffiles |-> <<>>, left |-> <<>>]
+Idle == [st |-> "idle", inputs |-> {}, rwin |-> FALSE, tmp |-> <<>>, refrw |-> NoRw, reffiles |-> <<>>, left |-> <<>>,
+         lo |-> <<>>,          \* records of a rewrite.aof.tmp left behind by a compaction that died (their frames sit in rewrite.aof.tmp.dat)
+         fresh |-> FALSE]      \* the tmp file is written, nothing has been removed or renamed yet
+
+\* Values are not addressed: the i-th value-carrying record of a file owns the i-th frame of its value file.  A file that
+\* kept an ORPHAN frame (a value written ahead of a record that never reached the record file, see ValueFirst) hands every
+\* value-carrying record appended later the frame of its predecessor.
+RECURSIVE ShiftFrom(_, _, _)
+ShiftFrom(recs, i, carry) ==
+    IF i > Len(recs) THEN recs
+    ELSE IF R!HasData(recs[i]) THEN ShiftFrom([recs EXCEPT ![i].data = carry], i + 1, recs[i].data)
+    ELSE ShiftFrom(recs, i + 1, carry)
+RecsOf(f) == IF "orph" \in DOMAIN f THEN ShiftFrom(f.recs, f.orph.at + 1, f.orph.val) ELSE f.recs
+AllRecsL(F) == FoldLeft(LAMBDA acc, f : acc \o RecsOf(f), <<>>, F)
 
 \* Aof.PushLock for a batch of records (one write per record); rotation when the file reaches the threshold; a
 \* rotation starts a compaction unless one is running.  lastn = records of the batch that sit in the newest file.
@@ -300,9 +319,20 @@ AdminRewrite ==       \* Admin REWRITEAOF: rotate, start a compaction
 CptWrite ==           \* findRewriteAofFiles + loadRewriteAofFiles: every closed file is an input
     /\ cpt.st = "pick"
     /\ LET ins == 1..(Len(files) - 1)
-           all == (IF rw.present THEN rw.recs ELSE <<>>) \o R!AllRecs(SubSeq(files, 1, Len(files) - 1))
+           all == (IF rw.present THEN rw.recs ELSE <<>>) \o AllRecsL(SubSeq(files, 1, Len(files) - 1))
            keep == SelectSeq(all, LAMBDA r : ~R!Skipped(r, now) /\ HasLock(r))
-       IN cpt' = [st |-> "written", inputs |-> ins, rwin |-> rw.present, tmp |-> [i \in 1..Len(keep) |-> Rewritten(keep[i])],
+           new == [i \in 1..Len(keep) |-> Rewritten(keep[i])]
+           \* the output file: opened in append mode, so a leftover rewrite.aof.tmp(.dat) is appended to (records duplicated, every
+           \* record still followed by its own frame).  TmpDatKept: record file started afresh, value file not - the i-th
+           \* value-carrying record owns the i-th frame of  leftover frames . new frames
+           DataOf(rs) == LET I == SelectSeq([i \in 1..Len(rs) |-> i], LAMBDA i : R!HasData(rs[i])) IN [x \in 1..Len(I) |-> rs[I[x]].data]
+           blobs == DataOf(cpt.lo) \o DataOf(new)
+           out == IF TmpDatKept
+                  THEN LET I == SelectSeq([i \in 1..Len(new) |-> i], LAMBDA i : R!HasData(new[i]))
+                           Ord(i) == CHOOSE x \in 1..Len(I) : I[x] = i
+                       IN [i \in 1..Len(new) |-> IF R!HasData(new[i]) THEN [new[i] EXCEPT !.data = blobs[Ord(i)]] ELSE new[i]]
+                  ELSE cpt.lo \o new
+       IN cpt' = [st |-> "written", inputs |-> ins, rwin |-> rw.present, tmp |-> out, lo |-> <<>>, fresh |-> TRUE,
                   refrw |-> rw, reffiles |-> SubSeq(files, 1, Len(files) - 1),
                   left |-> (IF rw.present THEN <<0>> ELSE <<>>) \o SelectSeq([i \in 1..(Len(files) - 1) |-> i], LAMBDA i : ~Gone(files[i]))]
     /\ hist' = Append(hist, [op |-> "cpt", step |-> "tmp-written"])
@@ -317,18 +347,18 @@ CptStep ==
               LET x == Head(cpt.left) IN
               /\ IF x = 0 THEN rw' = NoRw /\ UNCHANGED files
                  ELSE files' = [files EXCEPT ![x] = [idx |-> @.idx, recs |-> <<>>, junk |-> 0, gone |-> TRUE]] /\ UNCHANGED rw
-              /\ cpt' = [cpt EXCEPT !.left = Tail(@)]
+              /\ cpt' = [cpt EXCEPT !.left = Tail(@), !.fresh = FALSE]
               /\ hist' = Append(hist, [op |-> "cpt", step |-> "removed"])
           ELSE
               \* rename rewrite.aof.tmp -> rewrite.aof (the value file follows in a second step)
               /\ rw' = [present |-> TRUE, recs |-> cpt.tmp, dat |-> FALSE]
-              /\ cpt' = [cpt EXCEPT !.st = "renamed"]
+              /\ cpt' = [cpt EXCEPT !.st = "renamed", !.fresh = FALSE]
               /\ hist' = Append(hist, [op |-> "cpt", step |-> "renamed"])
               /\ UNCHANGED files
        ELSE
           \* repaired protocol: publish the new pair atomically, then remove the replaced append files
           /\ rw' = [present |-> TRUE, recs |-> cpt.tmp, dat |-> TRUE]
-          /\ cpt' = [cpt EXCEPT !.st = "published", !.left = SelectSeq(@, LAMBDA x : x # 0)]
+          /\ cpt' = [cpt EXCEPT !.st = "published", !.left = SelectSeq(@, LAMBDA x : x # 0), !.fresh = FALSE]
           /\ hist' = Append(hist, [op |-> "cpt", step |-> "published"])
           /\ UNCHANGED files
     /\ UNCHANGED <<now, eng, lastn, epoch, nops>>
@@ -347,10 +377,29 @@ CptFinish ==
        /\ hist' = Append(hist, [op |-> "cpt", step |-> "removed"])
        /\ UNCHANGED <<now, eng, rw, lastn, epoch, nops>>
 
+\* the process dies while the compaction writes rewrite.aof.tmp (k of its records are on disk) or right after; the restart
+\* replays the log (the tmp files are ignored) and starts its start-up compaction in the directory as it is
+CptCrashRestart ==
+    /\ Leftover /\ epoch = 1 /\ cpt.st = "written" /\ cpt.fresh
+    /\ \E k \in 0..Len(cpt.tmp) :
+         LET st == R!RecoverRecs((IF rw.present THEN rw.recs ELSE <<>>) \o AllRecsL(SelectSeq(files, LAMBDA f : ~Gone(f))), now)
+             AsHold(g) == [lid |-> g.lid, depth |-> g.depth, cnt |-> g.cnt, rc |-> g.rc, ef |-> g.ef, exp |-> g.exp, start |-> now,
+                           cls |-> "imm", aofT |-> 0, isAof |-> TRUE, cc |-> 1, nextv |-> now + 2]
+             VNum(s) == IF s = "v1" THEN 1 ELSE IF s = "v2" THEN 2 ELSE 0
+         IN /\ eng' = [kk \in Keys |-> IF <<0, kk>> \in DOMAIN st
+                                       THEN [H |-> [i \in 1..Len(st[<<0, kk>>].H) |-> AsHold(st[<<0, kk>>].H[i])],
+                                             val |-> VNum(st[<<0, kk>>].data), vaof |-> TRUE]
+                                       ELSE NoKey]
+            /\ cpt' = [Idle EXCEPT !.st = "pick", !.lo = SubSeq(cpt.tmp, 1, k)]
+            /\ hist' = Append(hist, [op |-> "cptcrash", written |-> k])
+    /\ epoch' = 2
+    /\ lastn' = 0
+    /\ UNCHANGED <<now, files, rw, nops>>
+
 -----------------------------------------------------------------------------
 \* what a start loads: rewrite.aof, then the append files by index
 
-DiskRecsOf(F, RW) == (IF RW.present THEN RW.recs ELSE <<>>) \o R!AllRecs(SelectSeq(F, LAMBDA f : ~Gone(f)))
+DiskRecsOf(F, RW) == (IF RW.present THEN RW.recs ELSE <<>>) \o AllRecsL(SelectSeq(F, LAMBDA f : ~Gone(f)))
 
 \* the start fails when rewrite.aof has a value-carrying record but no value file ("data file error"),
 \* or when a file holds partial bytes in the middle (second epoch after an unrepaired torn tail)
@@ -408,7 +457,11 @@ Mixed(new, old, c) ==
 CrashImages ==
     LET n == Len(files[Len(files)].recs)
         base == n - lastn
-    IN {<<j, c>> \in (0..lastn) \X (0..14) : (c = 0) \/ (j < lastn)}
+        cur == files[Len(files)].recs
+    IN {<<j, c>> \in (0..lastn) \X (0..15) : \/ c = 0
+                                             \/ (c \in 1..14 /\ j < lastn)
+                                             \* c = 15 (only with ValueFirst): the VALUE of record j+1 is on disk, the record is not
+                                             \/ (c = 15 /\ ValueFirst /\ j < lastn /\ R!HasData(cur[base + j + 1]))}
 
 \* the records a start sees in the newest file of image <<j, c>>, or "FAIL"
 ImageRecs(j, c) ==
@@ -416,7 +469,7 @@ ImageRecs(j, c) ==
         base == Len(cur) - lastn
         whole == SubSeq(cur, 1, base + j)
         before == DiskRecsOf(SubSeq(files, 1, Len(files) - 1), rw)
-    IN IF c = 0 THEN before \o whole
+    IN IF c = 0 \/ c = 15 THEN before \o whole
        ELSE LET nr == cur[base + j + 1] IN
             IF c = 14 THEN before \o whole \o <<[nr EXCEPT !.data = IF R!HasData(nr) THEN "-" ELSE @]>>
             ELSE IF A2Fixed THEN before \o whole          \* a short final read ends the load
@@ -458,8 +511,11 @@ CrashRestart ==
                                       THEN [H |-> [i \in 1..Len(st[<<0, k>>].H) |-> AsHold(st[<<0, k>>].H[i])],
                                             val |-> VNum(st[<<0, k>>].data), vaof |-> TRUE]
                                       ELSE NoKey]
-            /\ files' = [files EXCEPT ![Len(files)] = [idx |-> @.idx, recs |-> kept,
-                                                       junk |-> IF torn /\ ~A2Fixed THEN keepWhole + 1 ELSE 0]]
+            /\ files' = [files EXCEPT ![Len(files)] =
+                             IF c = 15
+                             THEN \* append-mode reopen keeps the value file as it is: the orphan frame stays behind the frames of the kept records
+                                  [idx |-> @.idx, recs |-> kept, junk |-> 0, orph |-> [at |-> keepWhole, val |-> cur[base + j + 1].data]]
+                             ELSE [idx |-> @.idx, recs |-> kept, junk |-> IF torn /\ ~A2Fixed THEN keepWhole + 1 ELSE 0]]
             /\ hist' = Append(hist, [op |-> "crash", whole |-> j, cut |-> c])
     /\ epoch' = 2
     /\ lastn' = 0
@@ -474,7 +530,7 @@ C16_Steps ==
         \A T \in Outages :
             LET others == SelectSeq([i \in 1..Len(files) |-> IF i \in cpt.inputs THEN [idx |-> files[i].idx, recs |-> <<>>, junk |-> 0, gone |-> TRUE] ELSE files[i]],
                                     LAMBDA f : ~Gone(f))
-                ref == R!RecoverRecs(DiskRecsOf(cpt.reffiles, cpt.refrw) \o R!AllRecs(others), T)
+                ref == R!RecoverRecs(DiskRecsOf(cpt.reffiles, cpt.refrw) \o AllRecsL(others), T)
             IN /\ ~StartFails(files, rw)
                /\ R!StateEqAt(RecoverDisk(files, rw, T), ref, T)
 
@@ -504,6 +560,7 @@ Next ==
     /\ \/ (cpt.st = "idle" /\ Ops)
        \/ CptWrite \/ CptStep \/ CptFinish
        \/ CrashRestart
+       \/ CptCrashRestart
     /\ turn' = turn
 
 Spec == Init /\ [][Next]_vars
